@@ -432,6 +432,25 @@ def features(case):
                 spec = next((a for a in t["attrs"] if a["name"] == t["key"]), None)
                 if spec and spec["dflt"][0] == "none" and any(a == t["key"] for a, _ in k["entries"]):
                     f["bare_key_defaulted_by_plain_class"] = True
+    # the same defect seen from below: a spec class whose key attribute has no default in the declaration it
+    # holds, while a plain class anywhere among its ancestors (e.g. K4(K2, K3) with K2 a plain class over the
+    # declaring spec class) assigns one
+    def ancestors(cid, acc):
+        for b in by_id[cid]["bases"]:
+            if b in by_id and b not in acc:
+                acc.add(b)
+                ancestors(b, acc)
+        return acc
+    for k in hier:
+        if k["deco"] is None:
+            continue
+        t = metas.get(k["id"])
+        if t and t["key"] is not None:
+            spec = next((a for a in t["attrs"] if a["name"] == t["key"]), None)
+            if spec and spec["dflt"][0] == "none":
+                for anc in ancestors(k["id"], set()):
+                    if by_id[anc]["deco"] is None and any(a == t["key"] for a, _ in by_id[anc]["entries"]):
+                        f["bare_key_defaulted_by_plain_class"] = True
     if case["calls"]:
         pos, kw, obs = case["calls"][0]
         f["positional"] = pos is not None
